@@ -1,5 +1,5 @@
 """C17 — sync bookkeeping structures behave like their simple models (engine simstruct)."""
-import os, time, json
+import os, time, json, subprocess
 from vlib import *
 from batchcheck import *
 
@@ -47,7 +47,12 @@ def determinism_selfcheck():
     checked = 0
     for kind in ("orphan", "inflight", "headermap", "ancestor", "locator"):
         for i in range(3):
-            sc, _ = run_json([BIN, "gen", "--kind", kind, "--seed", str(seed_lo(9) + i)], timeout=600)
+            # `gen` pretty-prints (multi-line), so it is parsed here rather than by run_json
+            r = subprocess.run([BIN, "gen", "--kind", kind, "--seed", str(seed_lo(9) + i)], env=ENV, stdout=subprocess.PIPE, stderr=subprocess.PIPE, text=True, timeout=600)
+            try:
+                sc = json.loads(r.stdout)
+            except json.JSONDecodeError:
+                raise HarnessError(f"gen --kind {kind} printed no scenario (exit {r.returncode}): {r.stderr[-500:]}")
             r1 = exec_scenario(BIN, sc)
             r2 = exec_scenario(BIN, sc)
             if r1["log_hash"] != r2["log_hash"] or bool(r1.get("violation")) != bool(r2.get("violation")):
@@ -68,8 +73,8 @@ def run(tier, args):
         ("orphan_pool", ["--kind", "orphan"], 600_000 if q else 8_000_000, 0, None),
         ("inflight_blocks", ["--kind", "inflight"], 400_000 if q else 6_000_000, 1, None),
         ("header_map", ["--kind", "headermap"], 40_000 if q else 800_000, 2, None),
-        ("ancestor_skip_list", ["--kind", "ancestor"], 100_000 if q else 1_000_000, 3, None),
-        ("locator_on_sync_shared", ["--kind", "locator"], 16_000 if q else 250_000, 4, None),
+        ("ancestor_skip_list", ["--kind", "ancestor"], 80_000 if q else 1_000_000, 3, None),
+        ("locator_on_sync_shared", ["--kind", "locator"], 12_000 if q else 250_000, 4, None),
         # bounded-exhaustive: every operation sequence up to the given length over a small alphabet
         ("orphan_pool_all_sequences", ["--kind", "orphan-enum"], None, 0, 6 if q else 7),
         ("inflight_blocks_all_sequences", ["--kind", "inflight-enum"], None, 0, 5 if q else 6),
@@ -131,7 +136,7 @@ def run(tier, args):
         "distinct_operation_sequences": agg.distinct_interleavings,
         "distinct_abstract_states": agg.distinct_states,
         "abstract_state_measure": "orphan: (pool size, leader count, max subtree depth); inflight: (entries, tracked peers, slow marks, states whose peer list is gone, restart number set); "
-        "header map: (keys, memory-tier fill, backend size, keys present in both tiers); ancestor: (log2 nodes, log2 main tip, forks, log2 query distance, shortcut used); locator: (locator length, log2 nodes, low-height sampling used)",
+        "header map: (keys, memory-tier fill, backend size, keys present in both tiers); ancestor: (log2 nodes, log2 main tip, forks, log2 query distance, shortcut used); locator: (locator length, log2 nodes, low-height sampling used). Counted per part and added; a state reached by both the random and the enumerated part of one structure is therefore counted twice (at most 15+20+9 states)",
         "simulated_runs_per_hour": int(agg.runs / max(wall, 1e-3) * 3600),
         "steps": agg.steps,
         "simulated_time_ms": agg.sim_ms,
